@@ -36,14 +36,14 @@ type Env struct {
 	dirtyKeys []ObjKey
 
 	// pod readiness bookkeeping: pod UID -> time it became ready (kubelet's view)
-	failVersion string // pods whose image is app:<failVersion> never become ready
-	FailingRev  map[string]bool
-	NativeHashCompat bool       // native Deployment model uses the same hash as util.ComputeHash
-	Fast        bool            // setup phase: no delays
-	revTemplates map[types.UID]map[string]*corev1.PodTemplateSpec // CloneSet/STS/DS revision history
-	gcDirty     bool
-	gcDue       time.Time
-	Nodes       int // DaemonSet: number of nodes
+	failVersion      string // pods whose image is app:<failVersion> never become ready
+	FailingRev       map[string]bool
+	NativeHashCompat bool                                             // native Deployment model uses the same hash as util.ComputeHash
+	Fast             bool                                             // setup phase: no delays
+	revTemplates     map[types.UID]map[string]*corev1.PodTemplateSpec // CloneSet/STS/DS revision history
+	gcDirty          bool
+	gcDue            time.Time
+	Nodes            int // DaemonSet: number of nodes
 }
 
 var (
@@ -738,7 +738,7 @@ func (e *Env) createNewRS(d *appsv1.Deployment, n int32, revision int) *appsv1.R
 	rs := &appsv1.ReplicaSet{
 		ObjectMeta: metav1.ObjectMeta{
 			Name: d.Name + "-" + hash, Namespace: d.Namespace, Labels: tmpl.Labels,
-			Annotations: map[string]string{revisionAnno: fmt.Sprint(revision), desiredAnno: fmt.Sprint(*d.Spec.Replicas), maxAnno: fmt.Sprint(int(*d.Spec.Replicas) + surge)},
+			Annotations:     map[string]string{revisionAnno: fmt.Sprint(revision), desiredAnno: fmt.Sprint(*d.Spec.Replicas), maxAnno: fmt.Sprint(int(*d.Spec.Replicas) + surge)},
 			OwnerReferences: []metav1.OwnerReference{{APIVersion: "apps/v1", Kind: "Deployment", Name: d.Name, UID: d.UID, Controller: &yes, BlockOwnerDeletion: &yes}},
 		},
 		Spec: appsv1.ReplicaSetSpec{Replicas: &n, MinReadySeconds: d.Spec.MinReadySeconds, Selector: sel, Template: *tmpl},
